@@ -417,6 +417,7 @@ func init() {
 		Build: func(c *Ctx) []*an.Oblig {
 			consumerCommitRollback(c)
 			packageRange(c)
+			c.errPolarity("(*consumer).Commit", "Range")
 			bufferRangeDiff(c)
 			consumerOffsets(c) // eviction is gated by COMMITTED offsets: a rolled-back window must still be in the buffer
 			defaultCleaner(c)  // ... and the default cleaner never evicts past the LOWEST committed offset, whatever the order of the offsets
